@@ -211,7 +211,7 @@ class Reconcile:
                     else child_parent.a.__class__ is not Dict        # value parent is not Dict)
                 )
                 or (
-                    child_parent.a.keys[val_pfield.idx] is not None  # or (key associated with value is not None
+                    (len(cpkeys := child_parent.a.keys) <= val_pfield.idx or cpkeys[val_pfield.idx] is not None)  # or (key associated with value is not None, keys may be the edited list and shorter
                     if (keya := keys[start]) is None                 # if our key is None, else
                     else (
                         not (keyf := getattr(keya, 'f', None))       # if key doesn't have FST
@@ -230,7 +230,7 @@ class Reconcile:
                         or f.parent is not child_parent
                         or f.pfield != ('values', i := child_off_idx + end)
                         or (
-                            child_parent_keys[i] is not None  # child_parent_keys and keys COULD be the same, but not guaranteed
+                            (i >= len(child_parent_keys) or child_parent_keys[i] is not None)  # child_parent_keys and keys COULD be the same, but not guaranteed
                             if (a := keys[end]) is None
                             else (
                                 not (f := getattr(a, 'f', None))
